@@ -491,6 +491,18 @@ class GlobGlobInner(Contract):
                           pyvc.eq(v.a['items'][0], U('fn.os.path.join', st.env['curdir'], st.fields['empty'])) if v.kind == 'tuple' else z3.BoolVal(False))
         return {'yield:': [('Glob._glob.yields_curdir/_only_for_a_final_**_with_non-empty_curdir,_and_otherwise_passes_on_what__glob_dir_found', y)]}
 
+    @property
+    def ensures(self):
+        def consumed(c):
+            tr = list(c.st.trace)
+            for ordn in (1, 2):
+                it = max([i for i, t in enumerate(tr) if t == f'loop{ordn}:iter'], default=-1)
+                ex = max([i for i, t in enumerate(tr) if t == f'loop{ordn}:exhausted'], default=-1)
+                if it > ex:
+                    return z3.BoolVal(False)          # the function ended from inside an iteration (break / return): later entries are dropped
+            return z3.BoolVal(True)
+        return [('Glob._glob.the_listing_of__glob_dir_is_consumed_to_the_end_(no_entry_is_dropped_by_an_early_exit)', ('C05',), consumed)]
+
     obligation_props = {'Glob._glob.**_walks': ('C06', 'C05'), 'Glob._glob.each_recursive': ('C05',), 'Glob._glob.yields_curdir': ('C05',), 'Glob._glob.loop': ('C05',)}
 
 
